@@ -242,7 +242,7 @@ func init() {
 }
 
 func runC11(w *fw.W) {
-	N := w.Pick(4, 7)
+	N := w.Pick(4, 8)
 	var W []optInt
 	W = append(W, optInt{nil: true})
 	for v := int64(-N - 2); v <= int64(N+2); v++ {
@@ -358,7 +358,7 @@ func runC11(w *fw.W) {
 	}
 
 	// source-text sample: the same rule through the parser (`s[a:b:c]`, `s[i]` written out)
-	nsrc := w.Pick(2000, 20000)
+	nsrc := w.Pick(4000, 200000)
 	batch := 250
 	for k := 0; k < nsrc/batch; k++ {
 		if !w.Take() {
